@@ -458,12 +458,13 @@ type opAbort struct{ msg string }
 func abort(f string, a ...interface{}) { panic(opAbort{fmt.Sprintf(f, a...)}) }
 
 type opResult struct {
-	broken string   // non-empty: the operation could not be carried out
-	kind   string   // model-level operation name
-	args   []string // model-level arguments (value syntax)
-	obs    triple   // what the application observed
-	held   *erpc.Status
-	human  string
+	ctorShared string   // non-empty: a public constructor handed out a predefined object
+	broken     string   // non-empty: the operation could not be carried out
+	kind       string   // model-level operation name
+	args       []string // model-level arguments (value syntax)
+	obs        triple   // what the application observed
+	held       *erpc.Status
+	human      string
 }
 
 func fwdVal(r fwdResult) string {
@@ -479,7 +480,7 @@ func fwdVal(r fwdResult) string {
 var opKinds = []string{
 	"call_ok", "call_ok_secure", "call_404", "call_badbody", "call_panic", "call_custom",
 	"call_404_json", "call_404_pb", "call_404_http", "call_panic_json", "call_panic_pb", "call_panic_http",
-	"call_404_ws", "call_panic_ws", "ws_handshake_panic", "push_404",
+	"call_404_ws", "call_panic_ws", "ws_handshake_panic", "push_404", "app_custom",
 	"closed_call", "closed_push", "dial_fail", "mtype_405", "unprepared", "write_failed",
 	"proxy_call_up", "proxy_call_up_404", "proxy_call_up_panic", "proxy_call_up_1xx", "proxy_push_up",
 	"proxy_call_down", "proxy_push_down", "proxy_call_dying",
@@ -489,7 +490,7 @@ var opKinds = []string{
 
 var opWeights = map[string]int{
 	"proxy_call_down": 3, "proxy_push_down": 3, "proxy_call_dying": 2, "closed_call": 2, "closed_push": 2,
-	"bindshared_b": 2, "bindshared_c": 2,
+	"bindshared_b": 2, "bindshared_c": 2, "app_custom": 3,
 }
 
 func (w *world) closedSession() erpc.Session {
@@ -633,6 +634,46 @@ func (w *world) run(kind string, cfg *RunCfg, tag string) (r opResult) {
 		w.closeServerSide(w.backend, s.LocalAddr().String())
 		s.Close()
 		r.obs, r.held = tripleOf(st), st
+	case "app_custom":
+		// application code creates a status of its own through a public constructor and
+		// annotates it, as it is entitled to
+		codes := []int32{erpc.CodeUnknownError, erpc.CodeInvalidOp, erpc.CodeWrongConn, erpc.CodeConnClosed,
+			erpc.CodeWriteFailed, erpc.CodeDialFailed, erpc.CodeBadMessage, erpc.CodeUnauthorized, erpc.CodeNotFound,
+			erpc.CodeMtypeNotAllowed, erpc.CodeHandleTimeout, erpc.CodeInternalServerError, erpc.CodeBadGateway}
+		code := codes[cfg.Rng.Intn(len(codes))]
+		var st *erpc.Status
+		how := cfg.Rng.Intn(8)
+		switch how {
+		case 0:
+			st = erpc.NewStatusByCodeText(code, nil, false)
+		case 1:
+			st = erpc.NewStatusByCodeText(code, "", false)
+		case 2:
+			st = erpc.NewStatusByCodeText(code, nil, true)
+		case 3:
+			st = erpc.NewStatus(code, erpc.CodeText(code), nil)
+		case 4:
+			st = erpc.NewStatusWithStack(code, erpc.CodeText(code), "")
+		case 5:
+			st = erpc.NewStatusFromQuery(erpc.NewStatus(code, erpc.CodeText(code), "").EncodeQuery(), false)
+		case 6:
+			st = socket.NewStatus(code, erpc.CodeText(code), nil)
+		default:
+			// Copy of a status an API handed out (here: what a closed session returns)
+			st = w.closedSession().Push("/note/tell", "x").Copy(nil)
+		}
+		base := tripleOf(st)
+		r.human = fmt.Sprintf("app_custom/%d", how)
+		if sh := byPointer[st]; sh != nil {
+			r.ctorShared = fmt.Sprintf("public constructor variant %d for code %d returned the predefined %s/%s object itself", how, code, sh.pkg, sh.name)
+		}
+		st.SetMsg("app text " + tag)
+		st.SetCause("app cause " + tag)
+		if cfg.Rng.Intn(3) == 0 {
+			st.SetCode(7000 + int32(cfg.Rng.Intn(100)))
+		}
+		r.obs, r.held = tripleOf(st), st
+		r.args = []string{base.val(), r.obs.val()}
 	case "unprepared":
 		st := w.directSess().(erpc.PreSession).PreSend(erpc.TypePush, "/note/tell", "x", nil)
 		r.obs, r.held = tripleOf(st), st
@@ -844,6 +885,9 @@ func main() {
 				caseBroken = true
 				st.Fail(i, "operation-broken", fmt.Sprintf("operation %s could not be carried out: %s", k, r.broken), strings.Join(kinds, " "))
 			}
+			if r.ctorShared != "" {
+				st.Fail(i, "constructor-returns-shared", r.ctorShared, strings.Join(kinds, " "))
+			}
 			results = append(results, r)
 			if probe {
 				kinds = append(kinds, "?"+k)
@@ -933,6 +977,8 @@ func main() {
 // (plugin/proxy's rewrite is recognised by the Bad Gateway code it stores).
 func classKey(op string, s *shared) string {
 	switch {
+	case strings.HasPrefix(op, "app_custom") && s.pkg != "user":
+		return "constructor-returns-shared"
 	case strings.HasPrefix(op, "proxy") && s.pkg != "user" && s.p.Code() == erpc.CodeBadGateway:
 		return "proxy-mutates-sentinel"
 	case s.pkg == "user":
